@@ -44,7 +44,7 @@ try:
         patches = sorted(glob.glob(f'/tmp/{rnd}/C*/_seed/patch*.diff'))
         if only:
             patches = [p for p in patches if p.split('/')[3] in only]
-    with concurrent.futures.ThreadPoolExecutor(8) as ex:
+    with concurrent.futures.ThreadPoolExecutor(14) as ex:
         res = list(ex.map(lambda p: one(p, tmp), patches))
 finally:
     shutil.rmtree(tmp, ignore_errors=True)
